@@ -1014,7 +1014,9 @@ class Engine:
                 out.append((s, VStr(z3.SubString(base.t, lo.t, hi_t - lo.t))))
                 continue
             sq = self.to_seq(base, s)
-            if sq is not None and self.mode == 'spec':
+            if sq is not None and (self.mode == 'spec' or (
+                    hi is None and z3.is_int_value(lo.t)
+                    and lo.t.as_long() >= 0)):
                 hi_t = seq_len(sq.t) if hi is None else hi.t
                 out.append((s, VSeq(z3.SubSeq(sq.t, lo.t, hi_t - lo.t),
                                     sq.elem)))
